@@ -20,9 +20,9 @@ Every round trip has the exact-consumption form: if the writer succeeds with byt
 where `struct.pack` raises — see the `…_ok_iff` theorems), the reader applied to `b ++ rest` returns the
 value and leaves exactly `rest`, for every `rest`.
 
-NOT proved here (differential only, see manifest): typed `getitem` after `parse (repr u)` for *int-valued*
-parameters (the needed `int(str(n)) = n` for the modelled `int()` IS proved now, `stationurl_int_of_str`; its composition with
-`parse (repr u)` into the typed getitem statement is not).
+Formerly differential only, now proved: typed `getitem` after `parse (repr u)` for *int-valued*
+parameters (the needed `int(str(n)) = n` for the modelled `int()` IS proved now, `stationurl_int_of_str`; and composed with `parse (repr u)`
+into the typed getitem statement: `stationurl_typed_access_roundtrip`).
 (The other direction of the calendar bijection, `civilOfDays (daysOfCivil y m d) = (y, m, d)`, IS proved now:
 `civil_roundtrip_inverse`, `civil_date_of_day_unique`, and with it `datetime_to_unix_and_back`.)
 -/
@@ -214,6 +214,18 @@ theorem civil_roundtrip (z : Nat) :
 /-- Python's `int(str(v)) = v` for the modelled `int()` (surrounding white space, optional sign, single underscores between
 digits) and `str()`: the value of an int-valued StationURL parameter survives its text form, for every integer -/
 theorem stationurl_int_of_str (v : Int) : StationURL.pyInt (StationURL.intStr v) = some v := StationURL.pyInt_intStr v
+
+open StationURL in
+/-- typed parameter access survives the text form: for a well-formed URL, `parse (repr u)` succeeds and `u'[field]` on the
+result equals `u[field]` on the original, for EVERY field name — string parameters, int parameters held as ints or as text,
+absent parameters (defaults) and unknown names (KeyError) alike -/
+theorem stationurl_typed_access_roundtrip (u : URL) (h : WF u) (field : Str) :
+    ∃ u', parse (some (repr u)) = .ok u' ∧ getitem u' field = getitem u field :=
+  ⟨strVals u, parse_repr u h, getitem_strVals u field⟩
+
+/-- on a concrete URL with an int-valued port held as an int: well-formed, and the typed read gives the int back -/
+example : StationURL.getitem (StationURL.strVals ⟨"prudps".toList, [("port".toList, .i 60000), ("address".toList, .s "1.2.3.4".toList)]⟩)
+    "port".toList = .ok (.i 60000) := by decide
 
 /-- and the parser is not the identity on text: white space, a plus sign and underscores are accepted, a double underscore is not -/
 example : StationURL.pyInt " +1_000 ".toList = some 1000 ∧ StationURL.pyInt "-42".toList = some (-42) ∧
